@@ -274,6 +274,65 @@ def main(argv):
                 if not agree:
                     c.broken.append("correspondence b64filter model vs bin/b64filter with child_%s.py: stdin %r: model %s, tool status %s" % (k, inp[:100], m[:100], st))
         c.cov["traces_validated_against_impl"] += len(sruns)
+        # --- long streams: the feeder->collector queue (util::UnboundedSingleQueue) works in pages of 1023
+        #     entries; document counts around multiples of the page size, all at once and with stdin
+        #     stalling exactly at a page boundary (the collector then catches up with the feeder there)
+        def check_stream(tag, docs, st, so, se, how):
+            c.count((tag, len(docs)), nontrivial=True, bucket="long-stream/" + tag.split(":")[0])
+            rep = {"op": "b64filter", "child": "child_id.py", "documents": len(docs), "first_documents": [d.decode("latin1") for d in docs[:3]],
+                   "status": st, "stdout_lines": so.count(b"\n"), "stderr": se.decode("utf-8", "replace")[-300:], "how": how}
+            if st == "timeout":
+                c.violation("hang: b64filter did not finish a stream of %d documents (%s)" % (len(docs), tag), rep)
+                return
+            if st != 0:
+                c.violation("tool-failed: b64filter exit status %s on a stream of %d well-formed documents (%s), %d of them came out" % (st, len(docs), tag, so.count(b"\n")), rep)
+                return
+            ol = so.split(b"\n")
+            if so.endswith(b"\n") or so == b"":
+                ol.pop()
+            if len(ol) != len(docs):
+                c.violation("document-count: %d documents in, %d base64 lines out (%s)" % (len(docs), len(ol), tag), rep)
+                return
+            for j, (d, l) in enumerate(zip(docs, ol)):
+                if l != pyb64.b64encode(d):
+                    try:
+                        got = pyb64.b64decode(l)
+                    except Exception:
+                        got = l
+                    c.violation("identity-child: document %d of %d (%s) %r came back as %r" % (j, len(docs), tag, d[:60], got[:60]), dict(rep, document_index=j))
+                    return
+
+        def mkdocs(n, salt):
+            ds = []
+            for i in range(n):
+                if i % 1023 == 1022:
+                    ds.append(b"long document %d\n" % i + b"x" * 9000 + b"\nend")      # forces a flush towards the child
+                elif i % 5 == 0:
+                    ds.append(b"doc %d %d" % (salt, i))                               # no final newline
+                elif i % 13 == 0:
+                    ds.append(b"")
+                else:
+                    ds.append(b"document %d line one\nline two of %d\n" % (i, i))
+            return ds
+        idc = os.path.join(CHILDREN, "child_id.py")
+        for n in ((1022, 1023, 1024, 2046, 2047, 3500) if quick else (1021, 1022, 1023, 1024, 1025, 2045, 2046, 2047, 2048, 3069, 3500, 5200)):
+            docs = mkdocs(n, n)
+            inp = b"".join(pyb64.b64encode(d) + b"\n" for d in docs)
+            st, so, se = run_limited([tool, idc], stdin=inp, timeout=60)
+            check_stream("at-once", docs, st, so, se, "%d documents (see mkdocs in checks/C08.py) | b64filter child_id.py" % n)
+        for n, cuts in ((2500, (1023, 2046)), (1100, (1022,)), (2100, (1024, 2047))):
+            docs = mkdocs(n, 7)
+            enc = [pyb64.b64encode(d) + b"\n" for d in docs]
+            parts, prev = [], 0
+            for cpos in cuts:
+                parts.append(b"".join(enc[prev:cpos]))
+                prev = cpos
+            parts.append(b"".join(enc[prev:]))
+            for child in (idc, "cat"):
+                st, so, se = run_staged([tool, child], parts, pause=1.2, timeout=60)
+                check_stream("stalled-stdin:%s" % os.path.basename(child), docs, st, so, se,
+                             "%d documents, stdin pauses 1.2 s after document(s) %s | b64filter %s" % (n, list(cuts), os.path.basename(child)))
+        c.cov["traces_validated_against_impl"] += 12
     finally:
         shutil.rmtree(scratch, ignore_errors=True)
     c.cov["traces_validated_against_impl"] += len(runs)
